@@ -209,8 +209,11 @@ func genHTMLDoc(r *rng, textTags []string, wide bool) (string, []gTok) {
 			}
 			g.plain(3, "<!--"+c+"-->")
 		case k == 9:
-			c := strings.ReplaceAll(g.text(), "]]>", "]] >")
-			g.plain(4, "<![CDATA["+c+r.pick([]string{"", ">", "<b>", "]"})+"]]>")
+			c := strings.ReplaceAll(g.text()+r.pick([]string{"", ">", "<b>", "]"}), "]]>", "]] >")
+			if strings.HasSuffix(c, "]]") { // "]]" + "]]>" would close the section one character early
+				c += " "
+			}
+			g.plain(4, "<![CDATA["+c+"]]>")
 		case k == 10:
 			g.tag("!DOCTYPE", false, false)
 		default:
